@@ -254,6 +254,7 @@ def process_leg(params, res):
     child's exit and the AL-control requests the child's bus recorded"""
     import json
     import os
+    import signal
     import tempfile
     import time
     rng = random.Random(params["seed"] * 100357 + params["shard"])
@@ -284,8 +285,31 @@ def process_leg(params, res):
             ec.ops = sg.ctx.Value("I")
             task = sg.start()
             await asyncio.sleep(delay)
+            if restart:
+                # "the first run is cycling" is read from the frame counter,
+                # not from the clock: a spawned child needs seconds to come
+                # up on a busy machine
+                t0 = time.time()
+                while ec.ops.value < 1 and not task.done():
+                    await asyncio.sleep(0.005)
+                    if time.time() - t0 > 60:
+                        sg.process.kill()
+                        task.cancel()
+                        await asyncio.gather(task, return_exceptions=True)
+                        return "watchdog", True, None, 0
             running = not task.done()
             ops_at_cancel = ec.ops.value
+            # in half of the restarts the first subprocess is not given the
+            # CPU between the cancellation and the second start (a stopped
+            # process is a possible schedule on a busy machine; made sure of
+            # here with SIGSTOP .. SIGCONT)
+            frozen = None
+            if restart and i % 4 == 3 and running and \
+                    getattr(sg, "process", None) is not None and \
+                    sg.process.is_alive():
+                frozen = sg.process.pid
+                os.kill(frozen, signal.SIGSTOP)
+                res.count("restarts_with_the_first_subprocess_stopped")
             task.cancel()
             if restart:
                 # the group is started again right after the cancellation
@@ -294,7 +318,11 @@ def process_leg(params, res):
                 # the second run is cancelled as well
                 await asyncio.sleep(0)
                 old_proc = sg.process
-                task2 = sg.start()
+                try:
+                    task2 = sg.start()
+                finally:
+                    if frozen is not None:
+                        os.kill(frozen, signal.SIGCONT)
                 # bounded progress: the first subprocess is over before
                 # hundreds of further frames have been exchanged (it looks
                 # at its flag once per cycle)
